@@ -241,6 +241,14 @@ def ref_txt(user: bytes):
     items.append(("T_ABS", "Float", 147.25 + 0.015625 * ta, ta))
     tr = struct.unpack(">d", int(b.take(64), 2).to_bytes(8, "big"))[0]
     items.append(("T_REL", "Float", tr, tr))
+    tp = b.u(16)
+    items.append(("T_PLAIN", "Float", 0.001 * tp, tp))
+    wb = b.take(12)
+    # byte order on a width that is not a whole number of bytes is outside the property: the packet carries zeros here
+    assert int(wb, 2) == 0, "reference: W12 must be all zeros"
+    items.append(("W12", "Int", 0, 0))
+    p4 = b.u(4)
+    items.append(("PAD4", "Int", p4, p4))
     return items, b.p
 
 
@@ -297,7 +305,7 @@ def end_to_end(ctx: Ctx):
     txt_bits = (f"{2:08b}" + f"{3:04b}" + "0000" + f"{2:08b}" + "".join(f"{x:08b}" for x in bytes.fromhex("feff004800580000")) +
                 "".join(f"{x:08b}" for x in b"\x10OK") + "".join(f"{x:08b}" for x in b"ab") + "1011001110" +
                 "".join(f"{x:08b}" for x in b"\x01\x02\x03") + "".join(f"{x:08b}" for x in b"\xaa\x55") + f"{1000:032b}" +
-                "".join(f"{x:08b}" for x in struct.pack(">d", -12.75)))
+                "".join(f"{x:08b}" for x in struct.pack(">d", -12.75)) + f"{5000:016b}" + "000000000000" + "1010")
     txt_bits += "0" * ((8 - len(txt_bits) % 8) % 8)
     txt = int(txt_bits, 2).to_bytes(len(txt_bits) // 8, "big")
     packets = [
